@@ -23,12 +23,48 @@ FINDINGS = {
                                        "seed matches Cap.Filter spends no budget and is never rejected",
     "C12-patchexpired-releases-capmu-early": "PatchExpired releases capMu after its count+select step: a second cap-bearing call counts before "
                                              "the selected records have been patched and spends the same budget again",
+    "C12-patchexpired-counts-expiring-records-only": "PatchExpired takes its cap count over the expiration-time index only: records that match "
+                                                     "Cap.Filter but carry no ExpiredAt (e.g. created by a cap-bearing PatchTreasures) are not counted, so one "
+                                                     "sequential PatchExpired pushes the number of matching records above Cap.MaxMatching",
     "C12-count-before-capmu": "capPreCount counts the matching records before taking capMu: two concurrent cap-bearing PatchTreasures batches "
                               "both start from the same count and together push the number of matching records above Cap.MaxMatching",
 }
 
 
+def annotate(op, reply):
+    """which waiting batch gets capMu when it is released is the Go runtime's choice: copy the observed order into the op"""
+    if op.startswith("step ") and len(op.split()) == 2:
+        order = [x[len("unblocked="):].split("@")[0] for x in reply.split() if x.startswith("unblocked=")]
+        if order:
+            return op + " u=" + ",".join(order)
+    return op
+
+
+def spec_trace(rep):
+    """C12s: the log is the implementation's behaviour"""
+    cap, held = None, None
+    for op in rep["ops"]:
+        w = op.split()
+        if not w:
+            continue
+        if w[0] == "hang":
+            return "a cap-bearing RPC never returned under concurrent load (log ends with `hang`)"
+        if w[0] == "init" and len(w) > 1 and w[1].isdigit():
+            cap = int(w[1])
+        elif w[0] == "quiet" and len(w) == 2 and w[1].isdigit() and cap is not None and int(w[1]) > cap:
+            return "at a quiescent point %s records match the cap's filter, the cap is %d (every operation of the run carried that cap)" % (w[1], cap)
+        elif w[0] in ("lock", "xlock") and len(w) == 2:
+            if held is not None:
+                return "`%s`: two cap-bearing calls hold capMu at once (%s and %s)" % (op, held, w[1])
+            held = w[1]
+        elif w[0] in ("unlock", "xunlock") and len(w) == 2:
+            held = None
+    return None
+
+
 def spec_violated(rep):
+    if rep.get("correspondence") == "C12s":
+        return spec_trace(rep)
     cap = None
     for op, line in zip(rep["ops"], rep["impl"]):
         w = op.split()
@@ -54,19 +90,27 @@ def run(ctx):
     K.lean_verdict(ctx)
     corrs = []
     if K.build_hx(ctx) and K.build_drv(ctx):
-        args = ["%s=%s" % (k, facts.get(k, "unknown")) for k in ("countAfterLock", "createPreFalse", "expiredHoldsCapMu")]
-        c = K.correspondence(ctx, "C12", args)
+        args = ["%s=%s" % (k, facts.get(k, "unknown")) for k in ("countAfterLock", "createPreFalse", "expiredHoldsCapMu", "expiredCountsAll")]
+        c = P.correspondence_observed(ctx, "C12", args, annotate)
         corrs.append(("C12", args, c))
+        # genuinely concurrent cap-bearing RPCs (PatchTreasures, PatchExpired, Deletes in flight, ShiftMatching);
+        # the hook log (batch lines written while capMu is held) must be a trace of the model
+        targs = args + ["mode=trace"]
+        ct = K.correspondence(ctx, "C12s", targs, drv_domain="C12")
+        corrs.append(("C12s", targs, ct))
+        ctx.cov["trace_inclusion"] = {"domain": "C12s", "log_lines": len(ct.ops), "rounds": len(ct.cases),
+                                      "lines_rejected_by_model": len(ct.mismatch), "event_histogram": ct.op_hist}
     else:
         ctx.violation("harness does not build against the repository", {"correspondence": "C12", "log": getattr(ctx, "hx_log", "")[-2000:]},
                       tag="build", found_input=False)
     K.decide_standard(ctx, corrs, FINDINGS)
     K.report_mismatch(ctx, spec_violated)
-    for _, _, c in corrs:
+    for name, dargs, c in corrs:
         if c.err or getattr(ctx, "confirmed", {}):
             continue
         for cs in c.cases:
             rep = K.case_replay(c, cs)
+            rep["correspondence"], rep["drv_args"] = name, dargs
             why = spec_violated(rep)
             if why:
                 ctx.violation("implementation violates the property: " + why, rep, tag="impl")
